@@ -265,6 +265,7 @@ def case_joint(ctx, inp):
 
 
 CASES = {"joint": case_joint, "merge": case_merge, "pct": case_pct, "nanpct": case_nanpct}
+CASES = {k: U.pure_sources(v) for k, v in CASES.items()}
 
 
 # ---------------------------------------------------------------------------------------------
